@@ -292,6 +292,16 @@ func RunMatryer(reg *Registration, cs *Case) (*Violation, RunStats) {
 		}
 		r.install(&r.methods[i], mode)
 	}
+	if reg.Opts["with-resets"] {
+		if !r.mv.MethodByName("ResetCalls").IsValid() {
+			r.fail(&Violation{"with-resets-methods-missing", reg.Variant, "ResetCalls", "with with-resets the mock has ResetCalls and Reset<M>Calls", "no ResetCalls method"})
+		}
+		for _, m := range r.methods {
+			if !r.mv.MethodByName("Reset" + m.Name + "Calls").IsValid() {
+				r.fail(&Violation{"with-resets-methods-missing", reg.Variant, "Reset<M>Calls", "with with-resets the mock has ResetCalls and Reset<M>Calls", "no Reset" + m.Name + "Calls method"})
+			}
+		}
+	}
 	if r.viol != nil {
 		return r.viol, st
 	}
